@@ -110,6 +110,12 @@ def build_traces(path, tier, seed):
         cut = float([0.0, 0.01, 0.1, rng.uniform(0, 0.1)][i % 4])
         aref = float(np.max(np.abs(x)) * rng.uniform(0.2, 1.5))
         namp = float([15.0, 1.0, 0.5, rng.uniform(0.1, 40)][i % 4])
+        if i % 5 == 3:      # integer counts (int64 / int32 arrays)
+            xi_ = np.round(x / np.max(np.abs(x)) * 40)
+            if np.max(np.abs(xi_)) == 0:
+                xi_[0] = 3
+            x = xi_.astype([np.int64, np.int32][(i // 5) % 2])
+            aref = float(np.max(np.abs(x)) * rng.uniform(0.2, 1.5))
         sw = pc.get_switched_peak_array_indices(x)
         ncyc = col0(im.calc_n_cyc_array_w_power_law(x, aref, b, cut_off=cut), n)
         amp = col0(im.calc_cyc_amp_array_w_power_law(x, namp, b), n)
@@ -129,7 +135,7 @@ def build_traces(path, tier, seed):
             cn = np.full((n, 3), np.nan)
             ca = np.full((n, 3), np.nan)
         tid += 1
-        recs.append({"tid": tid, "kind": "pl", "x": enc_seq(x), "sw": [int(k) for k in sw], "aref": enc(aref), "b": enc(b), "cut": enc(cut),
+        recs.append({"tid": tid, "kind": "pl", "x": enc_seq(np.asarray(x, dtype=float)), "sw": [int(k) for k in sw], "aref": enc(aref), "b": enc(b), "cut": enc(cut),
                      "namp": enc(namp), "ncyc": enc_seq(ncyc), "amp": enc_seq(amp), "ainv": enc(ainv), "alpha": enc(alpha),
                      "amp_scaled": enc(amp_scaled), "ncyc_joint": enc(ncyc_joint), "comb": enc(comb), "gm": enc(gm),
                      "colb": enc_seq(colb), "colncyc": enc_seq(cn[-1]), "colamp": enc_seq(ca[-1])})
